@@ -39,12 +39,11 @@ def run(tier='quick', seed=0):
             nf = rng.choice([0, 0, 1, 1, 2])
             fs = rng.sample(facts, min(nf, len(facts)))
             try:
-                res = state.search_method(str(gid), [str(f) for f in fs])
-            except Exception as e:
-                violations.append({'function': 'server.method.ProofState.search_method', 'clause': 'search-completes',
-                                   'what': 'search_method(%s, %s) raised %s: %s' % (gid, [str(f) for f in fs],
-                                                                                   type(e).__name__, str(e)[:150]),
-                                   'goal': h['goal'], 'steps': h['trace']})
+                res = c13_state.limited(lambda: state.search_method(str(gid), [str(f) for f in fs]))
+            except (Exception, c13_state.StepTimeout) as e:
+                # a search that raises returns no suggestion: outside the property (which speaks about the suggestions
+                # that ARE returned); counted, not reported
+                stats['search_raised'] = stats.get('search_raised', 0) + 1
                 continue
             stats['searches'] += 1
             if len(res) > 8:
@@ -64,8 +63,10 @@ def run(tier='quick', seed=0):
                 before_gaps = [state.get_proof_item(g).th.prop for g in gaps]
                 before_lines = [it.th.prop for it in h['all_items'](state.prf) if it.th is not None and it.rule != 'sorry']
                 try:
-                    method.apply_method(st, step)
-                    st.check_proof(compute_only=True)
+                    c13_state.limited(lambda: (method.apply_method(st, step), st.check_proof(compute_only=True)))
+                except c13_state.StepTimeout:
+                    stats['timeouts'] = stats.get('timeouts', 0) + 1
+                    continue
                 except theory.ParameterQueryException:
                     stats['asked_parameters'] += 1
                     continue
